@@ -9,6 +9,7 @@ import (
 	"reflect"
 	"sort"
 	"sync/atomic"
+	"time"
 
 	"github.com/go-chi/jwtauth/v5"
 	"github.com/gofrs/uuid"
@@ -72,6 +73,34 @@ func (m *Machine) ActRestartProbe(t *rapid.T) {
 
 	after := map[uuid.UUID]*JobSnap{}
 	pr2.IterateJobs(func(j *prunner.PipelineJob) { after[j.ID] = snapJob(j) })
+	// The state a runner starts with is a function of the snapshot: a second runner started from the same file a
+	// little later (the first one having saved nothing) reports every job the same way - also the jobs that were
+	// running or waiting in the file, whose end is not the moment somebody happened to start a runner.
+	if pct(t, 50, "secondStartFromTheSameSnapshot") {
+		time.Sleep(2 * time.Millisecond)
+		if st3, err := store.NewJSONDataStore(m.mem.Dir); err == nil {
+			ctx3, cancel3 := context.WithCancel(context.Background())
+			pr3, err := prunner.NewPipelineRunner(ctx3, CopyDefs(m.w.Defs), func(j *prunner.PipelineJob) taskctl.Runner {
+				return &SimRunner{w: m.w, JobID: j.ID, cancelCh: make(chan struct{})}
+			}, st3, nopOutputStore{})
+			if err == nil {
+				again := map[uuid.UUID]*JobSnap{}
+				pr3.IterateJobs(func(j *prunner.PipelineJob) { again[j.ID] = snapJob(j) })
+				for _, j := range ord {
+					a, b := after[j.ID], again[j.ID]
+					if (a == nil) != (b == nil) {
+						m.fail("C10", "two runners started from the same snapshot disagree on whether job #%d exists", j.AcceptIdx)
+					} else if a != nil {
+						if d := diffJob(a, b); d != "" {
+							m.fail("C10", "two runners started from the same snapshot, a moment apart, report job #%d differently: %s", j.AcceptIdx, d)
+						}
+					}
+				}
+				m.w.Stats.hit("restart:twice-from-the-same-snapshot")
+			}
+			cancel3()
+		}
+	}
 	// (3) nothing lost, nothing duplicated
 	var lost, extra []int
 	for _, j := range ord {
